@@ -63,7 +63,7 @@ def index_files():
     return seen
 
 
-def choose_maps(tier, rnd, always=('837.4010.X098.A1.xml', '835.5010.X221.A1.xml', '834.5010.X220.A1.xml', '999.5010.xml'), extra=2):
+def choose_maps(tier, rnd, always=('837.4010.X098.A1.xml', '835.4010.X091.A1.xml', '835.5010.X221.A1.xml', '834.5010.X220.A1.xml', '999.5010.xml'), extra=1):
     files = [f for f in index_files() if loadable(f)]
     if tier != 'quick':
         return files
@@ -185,7 +185,7 @@ class Concretiser(object):
         self.reset()
 
     def reset(self):
-        self.isa_n = 0
+        self.isa_n = getattr(self, 'isa_start', 0)
         self.gs_n = 0
         self.st_n = 0
         self.isa_id = self.gs_id = self.st_id = ''
